@@ -817,9 +817,19 @@ impl<T: Float> Unpaired<T> {
         let std_err_mean = // $\sqrt{s_a^2 / n_a + s_b^2 / n_b}$
             sum_s2_n.sqrt();
         let effective_dof = // $ \frac{ (s_a^a / n_a + s_b^2 / n_b)^2 }{ \frac{1}{n_a+1} \left(\frac{s_a^2}{n_a}\right)^2 + \frac{1}{n_b+1} \left(\frac{s_b^2}{n_b}\right)^2 } - 2$
-            sum_s2_n * sum_s2_n
-                / (sa2_na * sa2_na / (n_a + T::one())
-                    + sb2_nb * sb2_nb / (n_b + T::one())) - T::one() - T::one();
+            // evaluated on the ratio of the two terms: squaring them directly overflows (or
+            // underflows) for data of large (or small) magnitude, especially with `f32`
+            {
+                let (ratio, n_big, n_small) = if sa2_na >= sb2_nb {
+                    (sb2_nb / sa2_na, n_a, n_b)
+                } else {
+                    (sa2_na / sb2_nb, n_b, n_a)
+                };
+                let one_plus_ratio = T::one() + ratio;
+                one_plus_ratio * one_plus_ratio
+                    / (T::one() / (n_big + T::one()) + ratio * ratio / (n_small + T::one()))
+                    - T::one() - T::one()
+            };
 
         if !mean_difference.is_finite() || !std_err_mean.is_finite() {
             // NaN or infinite observations (or sums that overflowed)
